@@ -352,9 +352,9 @@ pub fn lzw_decode(data: &[u8], params: &LZWFlateParams) -> Result<Vec<u8>> {
     let mut out = vec![];
 
     let mut decoder = if params.early_change != 0 {
-        Decoder::with_tiff_size_switch(BitOrder::Msb, 9)
+        Decoder::with_tiff_size_switch(BitOrder::Msb, 8)
     } else {
-        Decoder::new(BitOrder::Msb, 9)
+        Decoder::new(BitOrder::Msb, 8)
     };
 
     decoder
@@ -368,7 +368,7 @@ fn lzw_encode(data: &[u8], params: &LZWFlateParams) -> Result<Vec<u8>> {
         bail!("encoding early_change != 0 is not supported");
     }
     let mut compressed = vec![];
-    Encoder::new(BitOrder::Msb, 9)
+    Encoder::new(BitOrder::Msb, 8)
         .into_stream(&mut compressed)
         .encode_all(data).status?;
     Ok(compressed)
